@@ -889,14 +889,22 @@ def c12_log_regex(prog: Program, run: Run) -> None:
                         for t, pol in cfg.branch_conditions(n2.id)):
                     none_skips.add(n2.id)
             sources.append(("bus", node.id, none_skips, st))
-        elif any(isinstance(x, ast.Call) and call_name(x) == "group" for x in ast.walk(
-                st.value)) and any(isinstance(x, ast.Constant) and x.value == 16
-                                   for x in ast.walk(st.value)) and \
-                st.targets[0].id == "frame_id":
-            sources.append(("line", node.id, set(), st))
+    # a log line that matched one of the frame patterns: the true edge of the test
+    line_starts = []
+    for node in cfg.nodes:
+        if node.kind == "if" and node.expr is not None and any(
+                isinstance(x, ast.Call) and call_name(x) == "match" for x in ast.walk(node.expr)):
+            for s_ in cfg.succ[node.id]:
+                if cfg.label.get((node.id, s_)) == "T":
+                    line_starts.append((node, s_))
+                    sources.append(("line", s_, set(), node.stmt))
     kinds = [k for k, *_ in sources]
-    lost = [st for _k, nid, skips, st in sources
-            if not all(cfg.must_pass(nid, via | skips, d) for d in whiles + [EXIT])]
+    lost = []
+    for k, nid, skips, st in sources:
+        if k == "line" and nid in via:
+            continue
+        if not all(cfg.must_pass(nid, via | skips, d) for d in whiles + [EXIT]):
+            lost.append(st)
     if kinds.count("bus") < 1 or kinds.count("line") < 2 or len(uses) < 3:
         run.violation(R, "IsoTpStateMachine.read_telegrams", "decode-calls",
                       "not every input kind (bus, candump, log) feeds decode_rx_frame", f.loc)
